@@ -278,6 +278,13 @@ class Effects:
                     out.append(Eff(kind, e.sched, e, wave, stamp, here, detail=e.cb))
                     if e.sched == "later" or wave + 1 > self.max_wave:
                         continue
+                    lam = eng.deferred_lambda_calls(e.cb, p.env, fi) if e.cb is not None and e.cb[0] == "closure" else None
+                    if lam is not None:
+                        # a lambda callback: its body runs later, with the values its free variables have then
+                        for c in lam:
+                            if c.fterm is not None and c.fterm[0] in ("bound", "func"):
+                                out.extend(self._expand_callable(c.fterm, c.args, c.kwargs, wave + 1, stamp, here, _seen, eng))
+                        continue
                     for cb, cargs, ckw in self._callables(e.cb, e.cbargs, e.cbkwargs, eng):
                         out.extend(self._expand_callable(cb, cargs, ckw, wave + 1, stamp, here, _seen, eng))
                     continue
